@@ -235,9 +235,32 @@ pub fn postconditions(ev: &EvidenceSet, o: &UnifyOutcome) -> Option<(String, Val
     if let Some(e) = &o.error {
         return Some((format!("unify-error:{e}"), json!({"error": e})));
     }
-    // 2. one equality-free expression per variable
+    // 2. one equality-free expression per variable. A variable counts when it
+    //    was declared or when some resolved type refers to it (a fresh variable
+    //    that nothing refers to may legitimately never enter the forest).
+    let mut referenced: BTreeSet<usize> = (0..ev.n_vars).collect();
+    for d in o.data.iter().flatten() {
+        for e in d {
+            match e {
+                TE::Mapping { key, value } => {
+                    referenced.insert(evidence::tv_index(*key));
+                    referenced.insert(evidence::tv_index(*value));
+                }
+                TE::DynamicArray { element } | TE::FixedArray { element, .. } => {
+                    referenced.insert(evidence::tv_index(*element));
+                }
+                TE::Packed { types, .. } => {
+                    for t in types {
+                        referenced.insert(evidence::tv_index(t.typ));
+                    }
+                }
+                _ => {}
+            }
+        }
+    }
     for v in 0..o.n_after {
         match &o.data[v] {
+            None if !referenced.contains(&v) => {}
             None => {
                 // A variable that exists (declared, or allocated while
                 // merging and referred to by resolved types) but has no entry
